@@ -147,6 +147,10 @@ EvExplore ==
   /\ Fail(Common \cup (IF C.warmact >= 0 /\ C.start + executed >= C.warmact /\ C.explore_only_in_warmup THEN {"ExploreOnlyInWarmup"} ELSE {}))
   /\ UNCHANGED <<phase, lastObs, queue, autoq, executed, epsDone>>
 
+(* exploration probability in force at the upcoming step (times 4): constant (epsilon4) or a step schedule that is 1
+   before step index eps_switch and 0 from it on; -1 = unknown *)
+Eps4 == IF C.eps_switch >= 0 THEN (IF C.start + executed < C.eps_switch THEN 4 ELSE 0) ELSE C.epsilon4
+
 (* the policy / planner was evaluated on an un-batched observation *)
 EvPolicy ==
   /\ E.ev = "policy"
@@ -155,7 +159,7 @@ EvPolicy ==
           \cup (IF ~CCondMatches(E.obs, lastObs[E.env]) THEN {"CondFaithful"} ELSE {})
           \cup (IF E.chosen >= 0 /\ E.chosen \notin SetOf(E.argmax) THEN {"GreedyIsMaximiser"} ELSE {})
           \cup (IF ~E.current THEN {"GreedyOnCurrentEstimate"} ELSE {})
-          \cup (IF C.epsilon4 = 4 /\ C.start + executed >= C.warmact THEN {"EpsilonOneNeverGreedy"} ELSE {})
+          \cup (IF Eps4 = 4 /\ C.start + executed >= C.warmact THEN {"EpsilonOneNeverGreedy"} ELSE {})
           \cup (IF C.warmact >= 0 /\ C.start + executed < C.warmact THEN {"PolicyBeforeWarmup"} ELSE {}))
   /\ UNCHANGED <<phase, lastObs, queue, autoq, executed, epsDone>>
 
@@ -180,7 +184,7 @@ EvStep ==
           \cup (IF C.check_bounds /\ ~E.box /\ ~E.valid THEN {"ActionInBounds"} ELSE {})
           \cup (IF pend[e].src = "explore" /\ pend[e].act # E.act THEN {"ExploredActionPassed"} ELSE {})
           \cup (IF pend[e].src = "policy" /\ pend[e].act # "unknown" /\ pend[e].act # E.act THEN {"ChosenActionPassed"} ELSE {})
-          \cup (IF C.epsilon4 = 0 /\ C.start + executed >= C.warmact /\ pend[e].src = "explore" THEN {"EpsilonZeroAlwaysGreedy"} ELSE {})
+          \cup (IF Eps4 = 0 /\ C.start + executed >= C.warmact /\ pend[e].src = "explore" THEN {"EpsilonZeroAlwaysGreedy"} ELSE {})
           \cup (IF C.policy_probe /\ pend[e].src = "none" THEN {"ActionWithoutChoice"} ELSE {}))
 
 (* a transition kept for learning: must be the oldest produced-but-unstored one of that stream *)
